@@ -22,6 +22,7 @@ import (
 	"io"
 	"mime/multipart"
 	"net/http"
+	"net/http/httptest"
 	"net/textproto"
 	"os"
 	"os/exec"
@@ -47,8 +48,8 @@ import (
 func init() {
 	hx.Register(&hx.Prop{
 		ID: "C15",
-		Rule: "corpus (inputs of the repaired findings F-C15-1 and F-C15-2, shapes of past seeded defects); exhaustive: all 21 unordered pairs of the 6 operation kinds " +
-			"(gorillamux FindRoute, legacy FindRoute, ValidateRequest, ValidateResponse, VisitJSON, NewSchemaRefForValue) × {fresh process (first use raced), warm process} " +
+		Rule: "corpus (inputs of the repaired findings F-C15-1 and F-C15-2, shapes of past seeded defects); exhaustive: all 28 unordered pairs of the 7 operation kinds " +
+			"(gorillamux FindRoute, legacy FindRoute, ValidateRequest, ValidateResponse, VisitJSON, NewSchemaRefForValue, the handler of Validator.Middleware on one shared Validator) × {fresh process (first use raced), warm process} " +
 			"on a document with patterns, uniqueItems arrays, scalar defaults, allOf/oneOf, multipart and urlencoded bodies with additionalProperties schemas; " +
 			"the same pattern text reached with two regex compilers (per-call option) × document validated with the default / the second compiler / pattern validation off × {fresh, warm}; " +
 			"fresh-process first use of eight self-referential Go types; " +
@@ -257,6 +258,14 @@ func c15DocJSON(doc map[string]any) []byte {
 			}
 		}
 	}
+	// servers of single path items (the routers register them per path)
+	if is, ok := doc["itemServers"].(map[string]any); ok {
+		for path, u := range is {
+			if item, ok := paths[path].(map[string]any); ok {
+				item["servers"] = []any{map[string]any{"url": u}}
+			}
+		}
+	}
 	d := map[string]any{"openapi": "3.0.0", "info": map[string]any{"title": "t", "version": "1"}, "paths": paths}
 	comps := map[string]any{}
 	if s, ok := doc["schemas"].(map[string]any); ok && len(s) > 0 {
@@ -312,6 +321,8 @@ type c15World struct {
 	doc *openapi3.T
 	g   routers.Router
 	l   routers.Router
+	// one Validator per router and mode, shared by all goroutines (as a server shares its middleware)
+	mw map[string]*openapi3filter.Validator
 }
 
 // c15DocRx: how the document is validated ("" default regex compiler, "ci" the second dialect, "off" pattern
@@ -342,7 +353,14 @@ func c15Load(data []byte) (*c15World, error) {
 	if err != nil {
 		return nil, fmt.Errorf("legacy: %w", err)
 	}
-	return &c15World{doc: doc, g: g, l: l}, nil
+	w := &c15World{doc: doc, g: g, l: l, mw: map[string]*openapi3filter.Validator{}}
+	for rk, r := range map[string]routers.Router{"g": g, "l": l} {
+		for _, strict := range []bool{false, true} {
+			w.mw[fmt.Sprintf("%s%v", rk, strict)] = openapi3filter.NewValidator(r, openapi3filter.Strict(strict),
+				openapi3filter.ValidationOptions(openapi3filter.Options{AuthenticationFunc: openapi3filter.NoopAuthenticationFunc, MultiError: strict}))
+		}
+	}
+	return w, nil
 }
 
 func (w *c15World) snapshot() string {
@@ -574,7 +592,36 @@ func c15Exec(w *c15World, docSpec, call map[string]any) (res string) {
 			keys = append(keys, k+"="+v)
 		}
 		sort.Strings(keys)
-		return fmt.Sprintf("route %s %s %v", route.Method, route.Path, keys)
+		server := "-"
+		if route.Server != nil {
+			server = route.Server.URL // both routers name the server the request was matched through
+		}
+		return fmt.Sprintf("route %s %s %v server=%s", route.Method, route.Path, keys, server)
+	case "mw":
+		// the middleware: FindRoute + ValidateRequest + handler + ValidateResponse on the shared Validator
+		req := c15Request(w, docSpec, call)
+		rk := "g"
+		if jstr(call, "router") == "l" {
+			rk = "l"
+		}
+		v := w.mw[fmt.Sprintf("%s%v", rk, jbool(call, "strict"))]
+		status := c15Int(call["status"])
+		if status == 0 {
+			status = 200
+		}
+		seen := ""
+		h := v.Middleware(http.HandlerFunc(func(rw http.ResponseWriter, r *http.Request) {
+			if r.Body != nil {
+				b, _ := io.ReadAll(r.Body)
+				seen = fmt.Sprint(len(b))
+			}
+			rw.Header().Set("Content-Type", "application/json")
+			rw.WriteHeader(status)
+			rw.Write([]byte(jstr(call, "respBody")))
+		}))
+		rec := httptest.NewRecorder()
+		h.ServeHTTP(rec, req)
+		return fmt.Sprintf("mw %d | %s | handlerSawBody=%s | query=%s", rec.Code, clip(strings.TrimSpace(rec.Body.String()), 400), seen, req.URL.RawQuery)
 	case "vreq":
 		req := c15Request(w, docSpec, call)
 		route, pp, err := w.router(call).FindRoute(req)
@@ -924,7 +971,7 @@ func runC15Child(c hx.Case) any {
 	vk := map[string]int{} // how the calls of this case end when run alone (accepted / rejected / not routed …)
 	for _, v := range ref {
 		switch {
-		case strings.HasPrefix(v, "ok"), strings.HasPrefix(v, "route "), strings.HasPrefix(v, "{"):
+		case strings.HasPrefix(v, "ok"), strings.HasPrefix(v, "route "), strings.HasPrefix(v, "{"), strings.HasPrefix(v, "mw 2"):
 			vk["accepted"]++
 		case strings.HasPrefix(v, "route-error"):
 			vk["notRouted"]++
@@ -1394,6 +1441,14 @@ func (g *c15Gen) doc(nops int) map[string]any {
 	if len(items) > 0 {
 		d["items"] = items
 	}
+	if g.lists && g.r.Chance(25) {
+		// one path item with servers of its own (matching the requests' host, or not: then its requests are not routed)
+		is := map[string]any{}
+		p := ops[g.r.Intn(len(ops))].(map[string]any)["path"].(string)
+		is[p] = hx.Pick(g.r, []string{"http://example.com/", "http://example.com/", "http://other.example/"})
+		d["itemServers"] = is
+		d["servers"] = true
+	}
 	return d
 }
 
@@ -1470,16 +1525,27 @@ func (g *c15Gen) call(kind string, doc map[string]any) map[string]any {
 		if g.r.Chance(10) {
 			c["method"] = "DELETE"
 		}
-	case "vreq":
+	case "vreq", "mw":
 		reqPart()
-		c["skipDefaults"] = g.r.Chance(25)
-		c["multi"] = g.r.Chance(40)
-		if g.r.Chance(40) {
-			c["rx"] = "ci" // per-call regex compiler
-		}
-		for _, o := range []string{"exBody", "exQuery", "exRO"} {
-			if g.r.Chance(12) {
-				c[o] = true
+		if kind == "vreq" {
+			c["skipDefaults"] = g.r.Chance(25)
+			c["multi"] = g.r.Chance(40)
+			if g.r.Chance(40) {
+				c["rx"] = "ci" // per-call regex compiler
+			}
+			for _, o := range []string{"exBody", "exQuery", "exRO"} {
+				if g.r.Chance(12) {
+					c[o] = true
+				}
+			}
+		} else {
+			// the Validator's options are fixed at construction and shared; per call: mode, handler's answer
+			delete(c, "auth")
+			c["strict"] = g.r.Bool()
+			c["status"] = hx.Pick(g.r, []int{200, 200, 200, 404, 201})
+			c["respBody"] = "{}"
+			if r, ok := op["resp"].(map[string]any); ok {
+				c["respBody"] = jsonText(g.value(r["schema"].(map[string]any), 0))
 			}
 		}
 		if b, ok := op["body"].(map[string]any); ok {
@@ -1573,7 +1639,7 @@ func (g *c15Gen) call(kind string, doc map[string]any) map[string]any {
 	return c
 }
 
-var c15Kinds = []string{"frg", "frl", "vreq", "vresp", "visit", "gen"}
+var c15Kinds = []string{"frg", "frl", "vreq", "vresp", "visit", "gen", "mw"}
 
 // kitchen-sink document of the exhaustive part
 func c15SinkDoc(tag string) map[string]any {
@@ -1625,6 +1691,12 @@ func c15SinkCall(kind string, variant int) map[string]any {
 		default:
 			return map[string]any{"k": "vreq", "op": 2, "pathv": "12", "router": "g", "ct": "application/x-www-form-urlencoded", "body": "a=zz&l=1&l=1", "skipDefaults": true, "multi": false}
 		}
+	case "mw":
+		c := c15SinkCall("vreq", variant)
+		c["k"] = "mw"
+		c["strict"] = variant%2 == 0
+		c["respBody"] = []string{`[{"name":"ab","tags":["a"]},{"name":"ba"}]`, `{"name":"abab"}`, `[{"name":"zz"},{"name":"zz"}]`}[variant%3]
+		return c
 	case "vresp":
 		return map[string]any{"k": "vresp", "op": 0, "pathv": "ab", "router": []string{"g", "l"}[variant%2], "multi": variant%2 == 1,
 			"body": []string{`[{"name":"ab","tags":["a"]},{"name":"ba"}]`, `[{"name":"zz"},{"name":"zz"}]`}[variant%2]}
@@ -1674,7 +1746,11 @@ func c15PathItemCase(nItem, variant, n int) hx.Case {
 		for _, h := range owns[i] {
 			good[h] = "ab"
 		}
-		calls = append(calls, map[string]any{"k": "vreq", "op": i, "pathv": "7", "router": []string{"g", "l"}[i%2], "headers": good, "multi": i == 1, "skipDefaults": true})
+		calls = append(calls, map[string]any{"k": "vreq", "op": i, "pathv": "7", "router": []string{"g", "l"}[(i+nItem)%2], "headers": good, "multi": i == 1, "skipDefaults": true})
+		if i == 1 {
+			// the same request through the shared middleware
+			calls = append(calls, map[string]any{"k": "mw", "op": i, "pathv": "7", "router": []string{"l", "g"}[(i+nItem)%2], "headers": good, "strict": nItem%2 == 0, "respBody": "{}"})
+		}
 	}
 	// a request that lacks its own required header: rejected alone, with a message naming that header
 	calls = append(calls, map[string]any{"k": "vreq", "op": 0, "pathv": "7", "router": "g", "headers": map[string]any{"X-P1": "ab"}, "multi": true, "skipDefaults": true})
@@ -1812,7 +1888,7 @@ func genC15(ctx *hx.Ctx, emit func(hx.Case)) {
 
 	nCold, nWarm := 110, 260
 	if ctx.Thorough() {
-		nCold, nWarm = 1400, 4600
+		nCold, nWarm = 1200, 4200
 	}
 	for i := 0; i < nCold+nWarm; i++ {
 		cold := i%((nCold+nWarm)/nCold) == 0
